@@ -109,7 +109,9 @@ class Session:
     def tlc(self, module, cfg, cwd, workers=1, timeout=1800, heap=None, extra=None, depth_first=False):
         meta = tempfile.mkdtemp(prefix="meta-", dir=self.scratch)
         env = dict(os.environ)
-        jopts = ["-XX:+UseParallelGC", "-Xss64m", "-Dfile.encoding=UTF-8"]
+        jtmp = os.path.join(self.scratch, "jtmp")
+        os.makedirs(jtmp, exist_ok=True)
+        jopts = ["-XX:+UseParallelGC", "-Xss64m", "-Dfile.encoding=UTF-8", "-Djava.io.tmpdir=" + jtmp]
         if heap:
             jopts.append("-Xmx" + heap)
         if depth_first:
